@@ -11,23 +11,37 @@ mkdir -p "$BIN" "$VERIF/evidence" "$VERIF/replays"
 [ -f Cargo.lock ] || cp /repo/Cargo.lock Cargo.lock
 
 FALLBACK=0
+# Compile-error-driven slicing: every corpus container (one entraited fn / module / trait family /
+# inversion family) can be compiled out with `--cfg skip_c<N>`. If the corpus does not build against
+# the current /repo, the containers the compiler errors point into are dropped and the build is
+# retried, so that a change which turns SOME shapes into compile errors still gets a run-time verdict
+# from the rest. A clean run on a sliced corpus is "no verdict" (exit 2), never "held".
 build() { # $1 = default|unimock
-  local feat="hetero"; [ "$1" = unimock ] && feat="hetero,unimock"
-  if ! cargo build --release --offline --features "$feat" 2>"$VERIF/target/gensim-build-$1.log"; then
-    # the heterogeneous-signature slice turns many mis-forwardings into compile
-    # errors; fall back to the homogeneous slice so that the simulation can
-    # still decide the rest at run time
-    grep -E "^error" -A 12 "$VERIF/target/gensim-build-$1.log" | head -40 >&2
-    echo "gensim: full corpus ($1 build) does not build against the current /repo working tree; retrying without the heterogeneous-signature slice" >&2
-    feat=""; [ "$1" = unimock ] && feat="unimock"
-    if ! cargo build --release --offline --features "$feat" 2>"$VERIF/target/gensim-build-$1.log"; then
-      grep -E "^error" -A 12 "$VERIF/target/gensim-build-$1.log" | head -60 >&2
-      echo "HARNESS-ERROR: the gensim corpus ($1 build) does not build against the current /repo working tree; this is a compile-time verdict and not a simulation result" >&2
+  local feat=""; [ "$1" = unimock ] && feat="--features unimock"
+  local skips="" round new log="$VERIF/target/gensim-build-$1.log"
+  for round in 1 2 3 4 5 6 7 8; do
+    if cargo rustc --release --offline --bin gensim $feat -- $skips 2>"$log"; then
+      cp -f "$VERIF/target/gensim/release/gensim" "$BIN/gensim-$1" || return 2
+      if [ -n "$skips" ]; then
+        FALLBACK=1
+        echo "gensim: the full corpus ($1 build) does not compile against the current /repo working tree; compiled out containers:$(echo "$skips" | sed 's/--cfg skip_c/ /g')" >&2
+      fi
+      return 0
+    fi
+    new=$(grep -oE 'src/(corpus|dispatch)\.rs:[0-9]+' "$log" | sort -u | awk -F: 'NR==FNR { split($0, r, "\t"); f[NR]=r[1]; a[NR]=r[2]; b[NR]=r[3]; c[NR]=r[4]; n=NR; next } { for (i=1;i<=n;i++) if (f[i]==$1 && $2+0>=a[i]+0 && $2+0<=b[i]+0) print c[i] }' "$VERIF/gensim/src/linemap.tsv" - | sort -un)
+    local added=""
+    for c in $new; do
+      case " $skips " in *" skip_c$c "*) ;; *) skips="$skips --cfg skip_c$c"; added="$added $c";; esac
+    done
+    if [ -z "$added" ]; then
+      grep -E "^error" -A 8 "$log" | head -40 >&2
+      echo "HARNESS-ERROR: the gensim corpus ($1 build) does not build against the current /repo working tree and the compiler errors do not point into a droppable corpus container; this is a compile-time verdict and not a simulation result" >&2
       return 2
     fi
-    FALLBACK=1
-  fi
-  cp -f "$VERIF/target/gensim/release/gensim" "$BIN/gensim-$1" || return 2
+    [ $round = 1 ] && { grep -E "^error" -A 6 "$log" | head -24 >&2; }
+  done
+  echo "HARNESS-ERROR: the gensim corpus ($1 build) still does not build after dropping containers:$skips" >&2
+  return 2
 }
 
 run_part() { # $1 = build, $2 = part
@@ -51,12 +65,9 @@ run_part() { # $1 = build, $2 = part
 
 case "$ID" in
   setup)
-    # the fallback slices must build too (they are what catches mis-forwardings that
-    # turn the heterogeneous slice into compile errors)
-    cargo build --release --offline 2>"$VERIF/target/gensim-build-fallback.log" || { tail -20 "$VERIF/target/gensim-build-fallback.log" >&2; echo "HARNESS-ERROR: fallback slice does not build" >&2; exit 2; }
-    cargo build --release --offline --features unimock 2>"$VERIF/target/gensim-build-fallback.log" || { tail -20 "$VERIF/target/gensim-build-fallback.log" >&2; echo "HARNESS-ERROR: fallback slice (unimock) does not build" >&2; exit 2; }
     build default || exit 2
     build unimock || exit 2
+    if [ $FALLBACK -eq 1 ]; then echo "HARNESS-ERROR: setup: the full corpus must build on the tree setup runs against" >&2; exit 2; fi
     exit 0;;
   C11)
     build unimock || exit 2
